@@ -205,6 +205,10 @@ fn gen_items(r: &mut Rng, n: usize) -> Vec<Value> {
                 for _ in 0..na {
                     if r.chance(1, 2) {
                         let (dp, dl, dv) = *r.pick(decls);
+                        let dupkey = attrs.iter().any(|a: &Value| a["local"] == cps(dl) && a["prefix"] == match dp { Some(p) => json!([cps(p)]), None => json!([]) });
+                        if dupkey {
+                            continue;
+                        }
                         attrs.push(attrj(dp, dl, dv));
                     } else {
                         let (ap, al) = *r.pick(plain);
@@ -314,6 +318,7 @@ pub fn main(args: &Args) {
                 let xo = run_xml(&[text.clone()], false, true, false, false);
                 out.line(&json!({"ev":"case","case":id,"items":c.get("items").cloned().unwrap_or(json!([])),"text":cps(&text),
                                  "created": created_elements(&xo.events),
+                                 "toks": xo.events.iter().filter(|e| e["ev"] == "token").map(|e| e["tok"].clone()).collect::<Vec<_>>(),
                                  "ntagtokens": xo.events.iter().filter(|e| e["ev"]=="token" && matches!(e["tok"]["k"].as_str().unwrap_or(""), "start"|"end"|"empty"|"short")).count(),
                                  "panic": match &xo.panic { Some(m) => json!([cps(m)]), None => json!([]) }}));
             },
